@@ -160,10 +160,10 @@ def table (nt : Nat) : Prog :=
             opt [Colon] (push [.Identifier, .Label])
               (opt [ParenLeft]
                 (seqs [call0 nArgsLoop, consume Semicolon, push [.List, .Identifier, .MethodCall]])
-                (seqs [call nStepsLoop (.const 127), derefTail, call0 nAssignRest]))),
+                (seqs [call nStepsLoop (.const 128), derefTail, call0 nAssignRest]))),
         ([Builtin], seqs [consume ParenLeft, call0 nArgsLoop, consume Semicolon,
                           push [.List, .Identifier, .MethodCall]]),
-        ([Ampersand], seqs [call nAmpLoop (.const 126), consume Identifier, call nStepsLoop (.const 127),
+        ([Ampersand], seqs [call nAmpLoop (.const 126), consume Identifier, call nStepsLoop (.const 128),
                             derefTail, call0 nAssignRest])]
         (fail .unexpectedToken 1))
   -- parse_rest_of_arguments
@@ -216,18 +216,18 @@ def table (nt : Nat) : Prog :=
         ([StringLiteral], opt [StringLiteral]
             (seqs [call0 nStrLoop, push [.EndOfSpan, .CompositeStringLiteral]])
             (push [.SimpleStringLiteral])),
-        ([Ampersand], seqs [call nAmpLoop (.const 126), consume Identifier, call nStepsLoop (.const 127),
+        ([Ampersand], seqs [call nAmpLoop (.const 126), consume Identifier, call nStepsLoop (.const 128),
             derefTail, opt [Dots] (seqs [call0 nExpr, push [.Item, .BinaryOp, .Binary]]) skip]),
         ([Identifier],
             opt [ParenLeft] (seqs [call0 nArgsLoop, push [.List, .Identifier, .FunctionCall]])
               (opt [BraceLeft] (seqs [call0 nStructuralLoop, push [.List, .Structural]])
-                (seqs [call nStepsLoop (.const 127), derefTail]))),
+                (seqs [call nStepsLoop (.const 128), derefTail]))),
         ([Builtin], seqs [consume ParenLeft, call0 nArgsLoop, push [.List, .Identifier, .FunctionCall]]),
         ([BracketLeft], seqs [call0 nArrayLoop, push [.List, .ArrayLiteral]]),
         ([ParenLeft], seqs [call0 nExpr, consume ParenRight, push [.Parenthesized]])]
         (fail .unexpectedToken 1))
   -- parse_reference
-  | 29 => seqs [call nAmpLoop (.const 127), consume Identifier, call nStepsLoop (.const 127), derefTail]
+  | 29 => seqs [call nAmpLoop (.const 127), consume Identifier, call nStepsLoop (.const 128), derefTail]
   -- parse_deref_steps_list; counter = steps still allowed
   | 30 => ifZero (fail .maxDepth 0)
       (opt [BracketLeft]
